@@ -254,6 +254,62 @@ def check(run):
             run.count()
             if b != a:
                 run.violation(f"tounicode:{a}", f"ToASCII(ToUnicode({unhx(a)!r})) = {unhx(b) if b != '!' else None!r}", lines=["idna_to_unicode " + a, "idna_to_ascii " + u])
+    # ---------------- (I) ACE labels inside a domain that is not all-ASCII (so the ASCII carve-out does not apply): a label
+    # "xn--s" must be rejected when s is not valid Punycode, or decodes to a code point that UTS46 does not allow as is
+    alnum = "abcdefghijklmnopqrstuvwxyz0123456789"
+    aces = ["a", "", "abc-", "3ba", "caf-dma", "bcher-kva", "80ak6aa92e", "0", "zca", "1ug", "a-yoc", "zn7c", "ls8h", "-", "--", "a-", "99999999"]
+    aces += ["".join(rng.choice(alnum + "-") for _ in range(rng.randrange(1, 9))) for _ in range(150 if run.tier == "quick" else 3000)]
+    dec = oracle(["punydec " + hx(s.encode()) if s else "punydec -" for s in aces])
+    cases_i = []
+    for s, dcd in zip(aces, dec):
+        bad = None
+        if dcd in ("FAIL", "NONE", "fail", ""):
+            bad = "not valid Punycode"
+            if dcd in ("NONE", "") and s != "":
+                bad = None
+        else:
+            try:
+                cps_ = [int(x, 16) for x in dcd.split(",") if x]
+            except ValueError:
+                cps_ = None
+            if cps_:
+                hi = [c for c in cps_ if c >= 0x80]
+                st = oracle(["uts46 " + format(c, "x") for c in hi])
+                asg_ = oracle(["assigned " + format(c, "x") for c in hi])
+                # only code points that the 15.1 oracle knows: later Unicode versions (the library embeds 17.0) assign more
+                if all(x == "1" for x in asg_) and any(x.split()[0] not in ("V", "D") for x in st):
+                    bad = "decodes to a code point that is mapped / ignored / disallowed"
+        if bad:
+            cases_i.append((s, bad))
+    spell = []
+    for s, bad in cases_i:
+        form = rng.randrange(3)
+        if form == 0:
+            d = ("xn--" + s + "\u3002com").encode("utf-8")
+        elif form == 1:
+            d = ("xn--" + s + ".\uff43om").encode("utf-8")           # full-width c
+        else:
+            d = ("ex\u00adample.xn--" + s).encode("utf-8")             # soft hyphen (ignored) in another label
+        spell.append(d)
+    gi = host_route(binp, spell) if spell else []
+    for (s, bad), d, g in zip(cases_i, spell, gi):
+        run.count()
+        if g is not None:
+            run.violation(f"ace:{s}", f"domain {d.decode('utf-8')!r} (not all-ASCII, so full UTS46 processing applies) is accepted as {g!r} "
+                          f"although its label xn--{s} is {bad}", lines=[f"seqagg - {hx(b'https://' + d + b'/')} !"])
+    run.extra["invalid_ace_labels_probed"] = len(cases_i)
+    # ---------------- (H) size: UTS46 (with VerifyDnsLength off) puts no bound on the length of a domain
+    for n_bytes, first in ((16000, [0xe9]), (16384, [0xe9]), (16390, [0xe9]), (16390, [0x78, 0x6e, 0x2d, 0x2d, 0x39, 0x63, 0x61, 0x2e]), (40000, [0xe9])):
+        d = utf8(first) + b"a" * (n_bytes - len(utf8(first))) + b".com"
+        r, cz = lib.run_lines(binp, ["idna_to_ascii " + hx(d)])
+        run.count()
+        if cz:
+            run.violation("crash:long-domain", "harness crashed on a long domain", detail=cz)
+        elif r[0] == "!" and len(d) > 16384:
+            run.violation("known:domain-input-cap-16384", f"domain-to-ASCII fails on a well-formed {len(d)}-byte domain (UTS46 accepts it: "
+                          "label and domain lengths are not checked under the URL Standard's options)", lines=["idna_to_ascii " + hx(d[:40]) + "..."])
+        elif r[0] == "!":
+            run.violation(f"long-domain:{len(d)}", f"domain-to-ASCII fails on a well-formed {len(d)}-byte domain", lines=["idna_to_ascii " + hx(d)])
     run.sample({"vector_files": ["IdnaTestV2.json", "toascii.json"], "count": nvec})
     run.sample({"nfc_probe": show(strs[0]), "mapped": m[0], "normalized": a[0] if a else None})
     run.oblige("corr:impl-vs-independent-oracles(map,NFC,punycode,validity,vectors)", True)
